@@ -662,6 +662,9 @@ func (v *Verifier) VerifyFunction(fn *ssa.Function, fc *FuncContract) (err error
 	}()
 	v.top = fn
 	v.topC = fc
+	if p := fnPkg(fn); p != nil {
+		curScope = shortPkg(p.Path())
+	}
 	arithMath = fc.ArithMath
 	defer func() { arithMath = false }()
 	if fc.ArithMath {
@@ -693,8 +696,12 @@ func (v *Verifier) VerifyFunction(fn *ssa.Function, fc *FuncContract) (err error
 		}
 	}
 	// ghost globals
-	for _, name := range sortedKeys(v.contracts.ghosts) {
-		g := v.contracts.ghosts[name]
+	for _, gk := range sortedKeys(v.contracts.ghosts) {
+		g := v.contracts.ghosts[gk]
+		if g.Scope != "" && g.Scope != curScope {
+			continue
+		}
+		name := g.Name
 		ev := &Eval{v: v, st: st, pkg: fnPkg(fn)}
 		gv := namedValue("ghost!"+name, ev.resolveType(g.Typ))
 		if isMap(gv.T) {
@@ -710,6 +717,8 @@ func (v *Verifier) VerifyFunction(fn *ssa.Function, fc *FuncContract) (err error
 		st.ghost[name] = gv
 	}
 	st.frame = nil
+	st.ghost["$gocount"] = scalar(types.Typ[types.Int], Int(0))
+	st.assume(Not(Select(st.heapArr("chan#running", runningSort), Int(0))))
 	// preconditions
 	pre := &Eval{v: v, st: st, old: st, env: map[string]*Value{}, mode: evalPre, fn: fn, fc: fc, pkg: fnPkg(fn)}
 	if clo != nil {
@@ -736,7 +745,7 @@ func (v *Verifier) VerifyFunction(fn *ssa.Function, fc *FuncContract) (err error
 			continue
 		}
 		v.vacuityLate(e.st)
-		ev := &Eval{v: v, st: e.st, old: v.entry, env: map[string]*Value{}, mode: evalPost, fn: fn, fc: fc, pkg: fnPkg(fn)}
+		ev := &Eval{v: v, st: e.st, old: v.entry, env: map[string]*Value{}, mode: evalPost, fn: fn, fc: fc, pkg: fnPkg(fn), cells: v.topCells}
 		rs := fn.Signature.Results()
 		for k := 0; k < rs.Len() && k < len(e.results); k++ {
 			if n := rs.At(k).Name(); n != "" && n != "_" {
@@ -808,6 +817,12 @@ func (v *Verifier) ifaceContractsFor(fn *ssa.Function) []*FuncContract {
 		ic := v.contracts.byName[key]
 		if !strings.HasPrefix(ic.Header, "interface ") {
 			continue
+		}
+		if i := strings.Index(key, "::"); i >= 0 {
+			if key[:i] != curScope {
+				continue
+			}
+			key = key[i+2:]
 		}
 		k := strings.LastIndex(key, ".")
 		if k < 0 || key[k+1:] != fn.Name() {
